@@ -7,6 +7,7 @@ import (
 	"fmt"
 	"sort"
 	"strings"
+	"time"
 
 	"github.com/f1bonacc1/process-compose/src/types"
 )
@@ -112,7 +113,7 @@ func c13Scenarios(tier string) []*Scenario {
 			for _, r := range h {
 				ids = append(ids, fmt.Sprintf("%s=%d", r.name, r.n))
 			}
-			sc := &Scenario{ID: fmt.Sprintf("c13-init%d-%s", init, strings.Join(ids, ",")), YAML: c13YAML(init), K: 0, TickBudget: 0, EnvCost: 1,
+			sc := &Scenario{ID: fmt.Sprintf("c13-init%d-%s", init, strings.Join(ids, ",")), YAML: c13YAML(init), K: 0, TickBudget: 0, EnvCost: 1, Horizon: 100 * time.Second,
 				Procs: map[string]*ProcScript{"d": {Launches: exits(0)}, "x": {}, "w": {}}}
 			init := init
 			ready := func(w *World) bool {
@@ -275,7 +276,7 @@ func c13Check(w *World, init int) []Violation {
 		}
 	}
 	// at the end: removed replicas ended, added ones were launched with their own number
-	if len(obs) > 0 && (w.Outcome == "stuck" || w.Outcome == "completed") {
+	if len(obs) > 0 && w.Outcome != "deadlock" {
 		alive := map[int]bool{}
 		for _, f := range w.procs {
 			if f.Name == "w" && f.started && (!f.exited || f.inCleanup) {
